@@ -221,3 +221,26 @@ class Ctx:
                   f'rules={len({r[0] for r in self.instances})} '
                   f'known_findings={len(kf)} wall={wall:.2f}s')
         return code
+
+
+class Renamed:
+    """Proxy of a Ctx that files every rule instance under another rule
+    name: lets one property re-use the rule functions of another one."""
+
+    def __init__(self, ctx, rename):
+        self._c, self._rn = ctx, rename
+
+    def __getattr__(self, name):
+        return getattr(self._c, name)
+
+    def check(self, rule, *a, **k):
+        return self._c.check(self._rn(rule), *a, **k)
+
+    def fail(self, rule, *a, **k):
+        return self._c.fail(self._rn(rule), *a, **k)
+
+    def ok(self, rule, *a, **k):
+        return self._c.ok(self._rn(rule), *a, **k)
+
+    def floor(self, rule, n):
+        return self._c.floor(self._rn(rule), n)
